@@ -56,7 +56,7 @@ def concrete_rows(cin, variant):
     for r, ms in zip(rows, months):
         for k in range(ms.days_in_month):
             out.append({"T": r["T"], "Tv": (20 + (13 * (k + ms.month)) % 70) if r["T"] == "fin" else 0, "obs": r["obs"],
-                        "ov": (L * (1 + ms.month % 3)) if r["obs"] == "fin" else 0})
+                        "ov": (L * (1 + ms.month % 3) * (-1 if r.get("ov", 0) < 0 else 1)) if r["obs"] == "fin" else 0})
     return out, tz, start
 
 
